@@ -490,9 +490,13 @@ def run(rep):
     tier, rng = rep.tier, Rng(rep.seed)
     cov = rep.cov
     broken = []
-    po = common.proof_obligations(PROP_FILES)
+    # translator: BlockStoreState::{contains,head,next}, truncate_cache's loop condition and try_push's decision are
+    # regenerated from block_store.rs; Properties/C08Gen.v proves them equal to Model/BlockStore.v
+    import rust2coq
+    translator, gen_files = rust2coq.step(["numbers", "block_store"], ["theories/Properties/C08Gen.v"], broken)
+    po = common.proof_obligations(PROP_FILES + gen_files)
     if not po["ok"]:
-        broken.append("Coq obligations of Properties/C08.v: " + (po["log_tail"] or str(po["hygiene_problems"] or po["bad_axioms"])))
+        broken.append("Coq obligations of Properties/C08.v" + (", C08Gen.v" if gen_files else "") + ": " + (po["log_tail"] or str(po["hygiene_problems"] or po["bad_axioms"])))
     pins = glue_pins()
     if pins:
         broken.append("glue: " + "; ".join(pins))
@@ -575,8 +579,9 @@ def run(rep):
             "H-ATOM: closures of watch::Sender::send_if_modified run atomically; the harness polls queue_block futures in scripted order on a current_thread runtime, so the finer Wake/Push split of multi-threaded callers is covered by the theorems only",
             "H-ENG: the scripted EngineInterface of the harness (durable range watch, queue_next_block log with permits) stands for the persistence layer",
             "glue in gossip/runner.rs and bft block.rs is pinned textually, not executed",
-        ]),
+        ] + translator["trusted"]),
         "theorems": po["theorems"], "axioms": po["axioms"],
+        "translator": translator,
         "evaluations": len(coq_cases),
         "operations": nops,
         "distinct_nontrivial": len(nontrivial),
